@@ -76,7 +76,12 @@ func (c *Ctx) err9() {
 			u, ok := stripConv(v).(*ssa.UnOp)
 			return ok && u.Op == token.MUL && u.X == ssa.Value(target)
 		}
-		codeCmp := func(v ssa.Value) (neq, ok bool) {
+		var codeCmp func(v ssa.Value) (neq, ok bool)
+		codeCmp = func(v ssa.Value) (neq, ok bool) {
+			if u, isNot := stripConv(v).(*ssa.UnOp); isNot && u.Op == token.NOT {
+				n, k := codeCmp(u.X)
+				return !n, k
+			}
 			bo, isB := stripConv(v).(*ssa.BinOp)
 			if !isB || (bo.Op != token.NEQ && bo.Op != token.EQL) {
 				return false, false
@@ -129,6 +134,25 @@ func (c *Ctx) err9() {
 		}
 	}
 	a.done(2, "false without a connectReturn; code != accepted with one")
+	// the named refusals are the CONNACK return codes of MQTT 3.1.1 table 3.1:
+	// handshake turns the wire byte into a connectReturn unchanged, so the
+	// constants are wire values, not an enumeration that may be reordered
+	codes := c.accKeyless("ERR-9", "connectReturn", "named-codes-are-the-wire-values(MQTT-3.1.1-table-3.1)")
+	for _, kv := range []struct {
+		name string
+		want int64
+	}{{"accepted", 0}, {"ErrProtocolLevel", 1}, {"ErrClientID", 2}, {"ErrUnavailable", 3}, {"ErrAuthBad", 4}, {"ErrAuth", 5}} {
+		got, ok := c.constIntOK(kv.name)
+		switch {
+		case !ok:
+			codes.failAt("", "constant %s not found", kv.name)
+		case got != kv.want:
+			codes.failAt("", "%s is %d, want %d: a broker's refusal with return code %d is reported as a different reason", kv.name, got, kv.want, kv.want)
+		default:
+			codes.pass()
+		}
+	}
+	codes.done(6, "accepted=0, ErrProtocolLevel=1, ErrClientID=2, ErrUnavailable=3, ErrAuthBad=4, ErrAuth=5")
 }
 
 func boolConst(v ssa.Value) (val, ok bool) {
